@@ -72,7 +72,7 @@ def gen_case(rng):
         tag = c07.canon_semver(f) if rng.random() < 0.6 else c07.canon_pep440(f)
         common += ["--source", "none", "--tag-version", tag]
         if rng.random() < 0.9:
-            common += ["--bumped-branch", rand_branch(rng)]
+            common += ["--bumped-branch=" + (rand_branch(rng))]
     d = rng.choice([None, None, 0, 1, 2, 10, 1000])
     clean = False
     if d is not None:
@@ -256,7 +256,7 @@ def work_lengths(bins, branches):
     n = 0
     for b in branches:
         for ln in range(1, 11):
-            argv = ["flow", "--source", "none", "--tag-version", "1.0.0", "--distance", "1", "--bumped-branch", b, "--hash-branch-len", str(ln),
+            argv = ["flow", "--source", "none", "--tag-version", "1.0.0", "--distance", "1", "--bumped-branch=" + b, "--hash-branch-len", str(ln),
                     "--branch-rules", "[]", "--output-format", "zerv"]
             got = _cli(pr, argv, None)
             n += 1
